@@ -8,6 +8,14 @@ use std::panic::{catch_unwind, AssertUnwindSafe};
 
 pub const NREG: usize = 3;
 
+thread_local! { pub static LIVE: std::cell::Cell<bool> = const { std::cell::Cell::new(false) }; }
+/// append an observation line; in live mode (isolated re-run after a crash) also print it at once, so that the
+/// lines before an abort (std's non-unwinding UB check in debug builds) are not lost
+pub fn emit(out: &mut String, line: String) {
+    if LIVE.with(|l| l.get()) { use std::io::Write; let so = std::io::stdout(); let mut l = so.lock(); let _ = writeln!(l, "{}", line); let _ = l.flush(); }
+    else { out.push_str(&line); out.push('\n'); }
+}
+
 pub fn fmt_cols(c: &[Vec<u32>]) -> String { format!("{:?}", c).replace(' ', "") }
 pub fn fmt_ids(c: &[u32]) -> String { format!("{:?}", c).replace(' ', "") }
 pub fn fmt_ev(e: &[String]) -> String { format!("[{}]", e.join(",")) }
@@ -238,7 +246,7 @@ where I: DoubleEndedIterator<Item = X> + ExactSizeIterator {
     }
     out.join(",")
 }
-pub fn key_leaf<T: Shape>() -> usize { let mut d = String::new(); T::desc(&mut d); d.chars().filter(|c| "zbslh".contains(*c)).position(|c| c != 'z').unwrap_or(0) }
+pub fn key_leaf<T: Shape>() -> usize { let mut d = String::new(); T::desc(&mut d); d.chars().filter(|c| "zbslhp".contains(*c)).position(|c| c != 'z').unwrap_or(0) }
 /// gather `new[i] = old[p[i]]` on the mirror (what `apply_index` must do)
 pub fn gather<T>(v: &mut Vec<T>, p: &[usize]) {
     assert!(p.len() == v.len());
@@ -353,6 +361,7 @@ macro_rules! interp {
             let mk = |side: usize, tag: usize| -> T { set_side(side); <T as Shape>::make(tag as u32) };
             for (n, line) in lines.iter().enumerate() {
                 let w: Vec<&str> = line.split_whitespace().collect();
+                if LIVE.with(|l| l.get()) { emit(out, format!("# step {}", n)); }
                 let arg = |i: usize| -> usize { w[i].parse().expect("usize arg") };
                 // read-only observations do not reprint the registers (`regs=~` = unchanged)
                 let pure = matches!(w[0], "get" | "index" | "len" | "is_empty" | "capacity" | "caps" | "view" | "iter" | "bounds" | "tget" | "tlen" | "ptr" | "refs");
@@ -683,7 +692,7 @@ macro_rules! interp {
                                     _ => panic!("bad pointer token {}", t) }
                             }
                             let off = (p as usize as i64 - mirs[r].as_ptr() as usize as i64) / (std::mem::size_of::<T>().max(1) as i64);
-                            let kinds: Vec<char> = { let mut d = String::new(); <T as Shape>::desc(&mut d); d.chars().filter(|c| "zbslh".contains(*c)).collect() };
+                            let kinds: Vec<char> = { let mut d = String::new(); <T as Shape>::desc(&mut d); d.chars().filter(|c| "zbslhp".contains(*c)).collect() };
                             format!("at{:?}", kinds.iter().map(|k| if *k == 'z' { -1 } else { off }).collect::<Vec<i64>>()).replace(' ', "") } });
                         (ri, rs) }
                     // roundtrip r <vec|slice|slicemut>: rebuild the container from its pointer bundle and length (and capacity)
@@ -717,8 +726,8 @@ macro_rules! interp {
                     _ => interp!(@clone $cl, w, regs, mirs, mk, arg, T, $V),
                 };
                 if pure {
-                    let _ = writeln!(out, "I {} {} regs=~", n, ri);
-                    let _ = writeln!(out, "S {} {} regs=~", n, rs);
+                    emit(out, format!("I {} {} regs=~", n, ri));
+                    emit(out, format!("S {} {} regs=~", n, rs));
                     continue;
                 }
                 let mut ic: Vec<String> = vec![]; let mut sc: Vec<String> = vec![];
@@ -726,15 +735,15 @@ macro_rules! interp {
                     let mut c = vec![]; <T as Shape>::cols(&regs[r], &mut c); ic.push(fmt_cols(&c));
                     sc.push(fmt_cols(&mirror_cols(&mirs[r])));
                 }
-                let _ = writeln!(out, "I {} {} regs={}", n, ri, ic.join(";"));
-                let _ = writeln!(out, "S {} {} regs={}", n, rs, sc.join(";"));
+                emit(out, format!("I {} {} regs={}", n, ri, ic.join(";")));
+                emit(out, format!("S {} {} regs={}", n, rs, sc.join(";")));
             }
             // final drop of every container: everything created must have been destroyed exactly once
             let fi = exec(0, || { regs.clear(); });
             let fs = exec(1, || { mirs.clear(); });
             let (ddi, leaki) = audit(0); let (dds, leaks) = audit(1);
-            let _ = writeln!(out, "I end {} double_drop={} leak={}", fi, ddi, leaki);
-            let _ = writeln!(out, "S end {} double_drop={} leak={}", fs, dds, leaks);
+            emit(out, format!("I end {} double_drop={} leak={}", fi, ddi, leaki));
+            emit(out, format!("S end {} double_drop={} leak={}", fs, dds, leaks));
         }
     };
     (@clone yes, $w:ident, $regs:ident, $mirs:ident, $mk:ident, $arg:ident, $T:ident, $V:ident) => {
@@ -763,6 +772,7 @@ interp!(run_two, Two, TwoVec, TwoSlice, TwoSliceMut, TwoRef, TwoRefMut, TwoPtr, 
 interp!(run_flat4, Flat4, Flat4Vec, Flat4Slice, Flat4SliceMut, Flat4Ref, Flat4RefMut, Flat4Ptr, Flat4PtrMut, Flat4Iter, Flat4IterMut, yes);
 interp!(run_heap, Heap, HeapVec, HeapSlice, HeapSliceMut, HeapRef, HeapRefMut, HeapPtr, HeapPtrMut, HeapIter, HeapIterMut, yes);
 interp!(run_drh, DrH, DrHVec, DrHSlice, DrHSliceMut, DrHRef, DrHRefMut, DrHPtr, DrHPtrMut, DrHIter, DrHIterMut, no);
+interp!(run_drp, DrP, DrPVec, DrPSlice, DrPSliceMut, DrPRef, DrPRefMut, DrPPtr, DrPPtrMut, DrPIter, DrPIterMut, no);
 interp!(run_drn, DrN, DrNVec, DrNSlice, DrNSliceMut, DrNRef, DrNRefMut, DrNPtr, DrNPtrMut, DrNIter, DrNIterMut, no);
 interp!(run_nfirst, NFirst, NFirstVec, NFirstSlice, NFirstSliceMut, NFirstRef, NFirstRefMut, NFirstPtr, NFirstPtrMut, NFirstIter, NFirstIterMut, yes);
 interp!(run_nfirstf, NFirstF, NFirstFVec, NFirstFSlice, NFirstFSliceMut, NFirstFRef, NFirstFRefMut, NFirstFPtr, NFirstFPtrMut, NFirstFIter, NFirstFIterMut, yes);
@@ -777,16 +787,16 @@ pub fn shape_desc(name: &str) -> Option<String> {
     fn d<T: Shape>() -> String { let mut s = String::new(); T::desc(&mut s); format!("{} drops={} {}", T::NAME, T::DROPS as u8, s.trim()) }
     Some(match name {
         "One" => d::<One>(), "Two" => d::<Two>(), "Flat4" => d::<Flat4>(), "Heap" => d::<Heap>(),
-        "DrH" => d::<DrH>(), "DrN" => d::<DrN>(), "NFirst" => d::<NFirst>(), "NFirstF" => d::<NFirstF>(),
+        "DrH" => d::<DrH>(), "DrN" => d::<DrN>(), "DrP" => d::<DrP>(), "NFirst" => d::<NFirst>(), "NFirstF" => d::<NFirstF>(),
         "NMid" => d::<NMid>(), "NMidF" => d::<NMidF>(), "NLast" => d::<NLast>(), "NLastF" => d::<NLastF>(),
         "Deep" => d::<Deep>(), "DeepF" => d::<DeepF>(), _ => return None })
 }
-pub const SHAPES: &[&str] = &["One", "Two", "Flat4", "Heap", "DrH", "DrN", "NFirst", "NFirstF", "NMid", "NMidF", "NLast", "NLastF", "Deep", "DeepF"];
+pub const SHAPES: &[&str] = &["One", "Two", "Flat4", "Heap", "DrH", "DrN", "DrP", "NFirst", "NFirstF", "NMid", "NMidF", "NLast", "NLastF", "Deep", "DeepF"];
 
 pub fn run_shape(name: &str, lines: &[&str], out: &mut String) -> bool {
     match name {
         "One" => run_one(lines, out), "Two" => run_two(lines, out), "Flat4" => run_flat4(lines, out), "Heap" => run_heap(lines, out),
-        "DrH" => run_drh(lines, out), "DrN" => run_drn(lines, out), "NFirst" => run_nfirst(lines, out), "NFirstF" => run_nfirstf(lines, out),
+        "DrH" => run_drh(lines, out), "DrN" => run_drn(lines, out), "DrP" => run_drp(lines, out), "NFirst" => run_nfirst(lines, out), "NFirstF" => run_nfirstf(lines, out),
         "NMid" => run_nmid(lines, out), "NMidF" => run_nmidf(lines, out), "NLast" => run_nlast(lines, out), "NLastF" => run_nlastf(lines, out),
         "Deep" => run_deep(lines, out), "DeepF" => run_deepf(lines, out), _ => return false }
     true
